@@ -160,6 +160,30 @@ def check_word(ctx, runner, w, count=True, hashed=False, engine=None):
     ctx.guard(judge, rn, w, out, specified, member)
     if rn != META and len(w) <= 2 and h_sample(rn, w):
         ctx.guard(judge_inner, runner, rn, w, specified, member)
+        if out[0][0] in ("ok", "rule") and out[1][0] in ("ok", "errs"):
+            ctx.guard(judge_decorated, runner, rn, w, out)
+
+
+def judge_decorated(runner, rn, w, out):
+    """the same parent with its children dressed in a namespace prefix bound in their own map to a foreign namespace,
+    qualified extras and tail text: the content model speaks about child NAMES, so outcome and codes stay what they were"""
+    case = {"rule": rn, "word": list(w), "decorated": True}
+    plain = [("rule", type(out[0][1]).__name__) if out[0][0] == "rule" else (out[0][0], None),
+             ("errs", [e[0].name for e in out[1][1]]) if out[1][0] == "errs" else (out[1][0], None)]
+    dec = []
+    for mode in (0, 1):
+        Node.store.clear()
+        n = build.decorate(build.make_node(runner.real, word=w))
+        errs = [] if mode else None
+        try:
+            build.validate_under(runner.real, n, errs)
+            dec.append(("ok", None) if not errs else ("errs", [e[0].name for e in errs]))
+        except MetapypeRuleError as e:
+            dec.append(("rule", type(e).__name__))
+        except Exception as e:  # noqa
+            dec.append(("EXC", type(e).__name__))
+    if dec != plain:
+        raise Violation("verdict-depends-on-prefix-extras-or-tail", f"plain children {plain}, dressed-up children {dec}", case)
 
 
 def h_sample(rn, w):
@@ -377,6 +401,8 @@ def hyp_shard(ctx, shard):
         judge(rn, w, out, specified, member)
         if rn != META and len(w) <= 40:
             judge_inner(r, rn, w, specified, member)
+            if out[0][0] in ("ok", "rule") and out[1][0] in ("ok", "errs"):
+                judge_decorated(r, rn, w, out)
 
     hyp_search(ctx, "long-words", long_words(), body, n, shard=shard)
 
@@ -429,6 +455,8 @@ def replay(case):
         judge(rn, w, out, specified, member)
         if rn != META:
             judge_inner(r, rn, w, specified, member)
+            if out[0][0] in ("ok", "rule") and out[1][0] in ("ok", "errs"):
+                judge_decorated(r, rn, w, out)
     except Violation as v:
         return f"{v.bucket}: {v.message}"
     return None
